@@ -28,7 +28,7 @@ var textAlphabet = []rune{
 }
 
 var escapeLookalikes = []string{`\r`, `\n`, `\t`, `\\`, `\"`, `\u000d`, `\x0d`, `%0D%0A`, `%0d`, `&#13;`, `&quot;`, `malformed HTTP status code "\r\nOK"`,
-	`C:\results\run1.bin`, `\\r`, `\`, `null`, `""`, `"`, `DQo=`, `\0`, `\N`, `$1`, `${x}`, `%s`, `%!d(MISSING)`, "a\\\n", "\\\r"}
+	`C:\results\run1.bin`, `\\r`, `\`, `null`, `""`, `"`, `DQo=`, `\0`, `\N`, `$1`, `${x}`, `%s`, `%!d(MISSING)`, "a\\\n", "\\\r", "k1=v1;k2=v2;k3;k4;k5;k6;k7;k8;k9;k10;k11;k12;\n next line, with commas", ";;;;;;;;;;;;;", "a\tb\tc\td\te\tf\tg\th\ti\tj\tk\tl\tm\nx", "|||||||||||||\n"}
 
 // CRLFRemoved counts texts in which a CR-LF pair had to be broken up: encoding/csv
 // cannot carry that pair inside a field, so it is outside the representable domain.
@@ -156,7 +156,7 @@ func Body(t *rapid.T, label string, allowLarge bool) []byte {
 	}
 }
 
-var headerValueAlphabet = []rune("abcXYZ019 ,;=:/\"'()<>@[]{}?\\*-_.~!#$%&+^`|\t\u00e9\u6f22\U0001F600")
+var headerValueAlphabet = []rune("abcXYZ019 ,;=:/\"'()<>@[]{}?\\*-_.~!#$%&+^`|\t\u00e9\u6f22\U0001F600\u00a0\u00a0\u2003\u3000\u2028\u0085")
 
 // HeaderValue draws a value as net/http yields it: no control bytes (tab inside
 // is allowed by RFC 9110 and kept by net/http), no leading/trailing blanks.
